@@ -32,7 +32,7 @@ def c18(rep, tier):
     # every source file the build covers is analysed
     built = [os.path.relpath(u, repo) for u in all_units(repo)]
     extra = [u for u in built if u not in LIB and not u.startswith('CLI/')]
-    P1 = rep.rule('C18.P1', 'objects with static storage duration are const or never written after their initialisation', floor=9)
+    P1 = rep.rule('C18.P1', 'objects with static storage duration are const or never written after their initialisation', floor=3)
     if missing or extra:
         P1.unknown('unit list', 'library units changed: missing %s, not analysed %s' % (missing, extra))
     refs = {}
